@@ -272,6 +272,70 @@ func (st *c10State) runCallerOps(ci int, ops []Op, late bool) {
 			default:
 				cl.end(err, "")
 			}
+		case "rpcnb":
+			// ReqAlloc + the caller's own completion channel + Rpcnb + ReqFree (C09 only). Two requests share the
+			// channel; the first to complete is freed (its slot goes back to the client's cache, where other
+			// callers pick it up) while the second is still outstanding. Variant 0: both answered normally,
+			// 1: the second with Rerror, 2: the second with a reply of the wrong type.
+			variant := op.a(1) % 3
+			cl := st.begin(ci, i, "rpcnb", fmt.Sprintf("rpcnb/%d/%d", ci, i), late)
+			done := make(chan *go9p.Req, 4)
+			var mine [2]*go9p.Req
+			var offs [2]uint64
+			var err error
+			for k := 0; k < 2 && err == nil; k++ {
+				offs[k] = uint64(1)<<40 | uint64(ci)<<24 | uint64(op.a(0))<<8 | uint64(k)
+				if k == 1 && variant == 1 {
+					offs[k] |= markErr
+				} else if k == 1 && variant == 2 {
+					offs[k] |= markWrong
+				}
+				r := clnt.ReqAlloc()
+				r.Tc = clnt.NewFcall()
+				r.Done = done
+				if err = go9p.PackTread(r.Tc, fid.Fid, offs[k], 8); err == nil {
+					err = clnt.Rpcnb(r)
+				}
+				mine[k] = r
+			}
+			if err != nil {
+				cl.end(err, "")
+				break
+			}
+			bad := ""
+			for n := 0; n < 2 && bad == ""; n++ {
+				got := <-done
+				k := -1
+				for j, r := range mine {
+					if r != nil && r == got {
+						k = j
+					}
+				}
+				switch {
+				case k < 0:
+					bad = "the completion channel of this caller's non-blocking requests delivered a request that is not (or no longer) this caller's"
+				case offs[k]&(markErr|markWrong) == 0 && (got.Err != nil || got.Rc == nil || !bytes.Equal(got.Rc.Data, pattern(8, uint64(fid.Fid), offs[k], 8))):
+					bad = fmt.Sprintf("non-blocking read completed with err=%v and data that is not this request's", got.Err)
+				case offs[k]&(markErr|markWrong) != 0 && got.Err == nil:
+					bad = "the server answered a non-blocking request with an error / a wrong reply type, but it completed without an error"
+				case offs[k]&markErr != 0:
+					wantTxt, _ := errFor(offs[k])
+					if e, ok := got.Err.(*go9p.Error); !ok || e.Err != wantTxt {
+						bad = fmt.Sprintf("Rerror text %q came back as %v", wantTxt, got.Err)
+					}
+				}
+				if k >= 0 {
+					clnt.ReqFree(got)
+					mine[k] = nil
+				}
+				for y := 0; y < 6; y++ {
+					rt.Yield(rt.SiteActor) // others run: one of them may draw the slot just freed
+				}
+			}
+			cl.end(nil, bad)
+			if variant != 0 {
+				cl.ExpectedErr = true
+			}
 		case "tagreads":
 			// pipelined Tag interface: n reads under one shared tag
 			n, cnt := int(op.a(1)), uint32(op.a(2))
@@ -287,6 +351,17 @@ func (st *c10State) runCallerOps(ci int, ops []Op, late bool) {
 			pending := 0
 			for j := 0; j < n; j++ {
 				off := uint64(1)<<40 + uint64(op.a(0))<<20 + uint64(j)*4096
+				if len(op.A) > 4 && st.tagOrder {
+					// some of the pipelined reads are refused, or answered with the wrong reply type
+					switch (int(op.a(4)) + j) % 4 {
+					case 1:
+						off |= markErr
+					case 2:
+						if op.a(4) >= 2 {
+							off |= markWrong
+						}
+					}
+				}
 				cl := st.begin(ci, i, "tagread", fmt.Sprintf("%d/%d/%d", Tread, fid.Fid, off), late)
 				cls = append(cls, cl)
 				if err := tag.Read(fid, off, cnt); err != nil {
@@ -310,7 +385,7 @@ func (st *c10State) runCallerOps(ci int, ops []Op, late bool) {
 					st.x.Violate("k2-content", "Tag interface completed a request nobody issued")
 					continue
 				}
-				if st.tagOrder && r.Err == nil {
+				if st.tagOrder {
 					// requests sharing a tag are completed in the order issued
 					for ; nextDone < len(cls) && cls[nextDone].Returned; nextDone++ {
 					}
@@ -319,6 +394,19 @@ func (st *c10State) runCallerOps(ci int, ops []Op, late bool) {
 					}
 				}
 				err, bad := r.Err, ""
+				if flagged := r.Tc.Offset&(markErr|markWrong) != 0; flagged && st.tagOrder {
+					// the server refused this one / answered it with the wrong type: it must complete with an error
+					if err == nil {
+						bad = "the server answered a pipelined request with an error / a wrong reply type, but it completed without an error"
+					} else if wantTxt, _ := errFor(r.Tc.Offset); r.Tc.Offset&markErr != 0 {
+						if e, ok := err.(*go9p.Error); !ok || e.Err != wantTxt {
+							bad = fmt.Sprintf("Rerror text %q came back as %v", wantTxt, err)
+						}
+					}
+					cl.end(nil, bad)
+					cl.ExpectedErr = true
+					continue
+				}
 				if err == nil && r.Rc == nil {
 					bad = "request completed with neither reply nor error"
 				} else if err == nil && r.Rc.Type == go9p.Rerror {
